@@ -348,8 +348,9 @@ func enumC17(tier string, part, parts, skip int, deadline time.Time, note func(i
 	}
 
 	// ---- (d) CORS
-	lists := []string{"*", "http://a.example", "http://a.example;https://b.example:8080"}
-	origins := []string{"-", "null", "", "http://a.example", "HTTP://A.EXAMPLE", "http://a.exampl", "http://a.example.evil", "http://a.example:80", "https://b.example:8080", "https://B.example:8080", "http://ａ.example", "http://a.example\x80", "http://\xff.example", "http://K.example", "http://a.example;https://b.example:8080"}
+	lists := []string{"*", "http://a.example", "http://a.example;https://b.example:8080", "http://kiwi.example"}
+	origins := []string{"-", "null", "", "http://a.example", "HTTP://A.EXAMPLE", "http://a.exampl", "http://a.example.evil", "http://a.example:80", "https://b.example:8080", "https://B.example:8080", "http://ａ.example", "http://a.example\x80", "http://\xff.example", "http://K.example", "http://a.example;https://b.example:8080",
+		"http://kiwi.example", "http://KIWI.example", "http://\u212aiwi.example", "http://k\u0130wi.example", "http://k\u0131wi.example", "http://\uff4biwi.example"}
 	for _, list := range lists {
 		for _, origin := range origins {
 			for _, method := range []string{"GET", "POST", "OPTIONS", "WS"} {
